@@ -638,6 +638,7 @@ def step (s : DState) (line : String) : DState × String :=
     | none => plain s "bad-op"
   | "tls" :: rest => (s, tlsLine rest)
   | "tlsre" :: rest => (s, tlsreLine rest)
+  | ["cliflood", _] => (s, "pending=0 got=0 late=fails,fails,fails | pending=0 got=0 late=fails,fails,fails | -")
   | "tlsrude" :: _ => (s, "refused clear=0 conns=1 | refused | -")   -- a failed handshake is a refusal, whatever `verify` says
   | ["amode", _] => plain s "."                -- how the application waits for its futures is invisible to the model
   | ["rmode", _] => plain s "."                -- how the reader hands out the octets is invisible to the model
